@@ -248,6 +248,9 @@ def cron_poll_contract(reg: Registry):
         z3.ForAll([k, t1, l1, l2], z3.Implies(z3.And(l1 <= l2, sat(k, t1, ODT.some(l2))), sat(k, t1, ODT.some(l1)))),
     ]
     OCTX = Opt(CTX)
+    cache1 = lambda c: z3.Select(c.f("_last_cron_execution_cache"), cid(c))
+    cache_from_store = ("the-cache-only-ever-holds-values-read-from-or-written-to-the-store(what the precondition relies on)", lambda c: z3.Or(
+        cache1(c) == cache0(c), cache1(c) == st0(c), cache1(c) == z3.Select(c.f("stored"), cid(c))))
     poll = Contract(
         key=f"{BT}:BaseTrigger._should_trigger_cron_condition", shape="CronPoller", params={"condition": ObjT("PollCondition"), "current_time": DATETIME}, result=OCTX,
         frame=["stored", "_last_cron_execution_cache"],
@@ -256,14 +259,14 @@ def cron_poll_contract(reg: Registry):
         cases=[
             Case("occurrence", when=fires, ensures=[
                 ("C13:a-poll-that-satisfies-the-condition-for-the-STORED-last-execution-yields-the-occurrence", lambda c: OCTX.is_some(c.result)),
-                ("the-occurrence-carries-this-poll's-time-and-the-stored-last-execution", lambda c: z3.And(
-                    CTX.get(OCTX.val(c.result), "timestamp") == now(c), CTX.get(OCTX.val(c.result), "last_execution") == st0_opt(c))),
+                ("the-occurrence-carries-this-poll's-time", lambda c: CTX.get(OCTX.val(c.result), "timestamp") == now(c)),
                 ("C13:the-stored-last-execution-moves-to-this-poll(so that no later poll of this tick fires again)", lambda c: c.f("stored") == z3.Store(
                     c.old("stored"), cid(c), STORE.opt.some(now(c)))),
-                ("cache-follows", lambda c: z3.Select(c.f("_last_cron_execution_cache"), cid(c)) == STORE.opt.some(now(c)))]),
+                cache_from_store]),
             Case("no-occurrence", when=lambda c: z3.Not(fires(c)), ensures=[
                 ("C13:a-poll-outside-the-condition-yields-nothing(also when nothing was ever recorded)", lambda c: OCTX.is_none(c.result)),
-                ("store-untouched", lambda c: c.f("stored") == c.old("stored"))]),
+                ("store-untouched", lambda c: c.f("stored") == c.old("stored")),
+                cache_from_store]),
         ], properties=[PID],
         note="sequential contract of one poll; two pollers racing between the read and the swap are decided by the compare-and-swap contracts (one wins)")
     reg.add(poll)
